@@ -244,6 +244,7 @@ def run(ctx):
                            ("to_bits",), True,
                            "the sort key is the total-order transform of the raw bits: a NaN with the sign bit set (what 0.0/0.0 produces on x86) sorts before -inf while "
                            "'NaN' sorts after +inf, and -0.0 sorts strictly before 0.0 although they are equal, which breaks the order of the following keys"))
+    res.append(rule_tiesadj(facts))
     res.append(rule_orderalias(facts))
     return res
 
@@ -437,4 +438,65 @@ def rule_orderalias(facts):
     if not ok:
         r.violate(fn.id, "input-column-shadows-alias", "the input columns are consulted before the select list's aliases: `SELECT -a AS a .. ORDER BY a` orders by the "
                   "hidden input column", rec["file"], default[0].line)
+    return r
+
+
+def rule_tiesadj(facts):
+    """Tie flags say "row i equals row i+1"; the later sort keys are only applied inside runs of flagged rows. The loops that recompute
+    the flags after a sub-sort therefore compare *adjacent* rows: both operands of the comparison move with the loop. An operand that is
+    fixed before the loop compares every row with the first row of the group and un-ties equal neighbours (rows that tie on a long string
+    are then never ordered by the following keys). Decided in arrays::sort: for every comparison call inside a loop whose function writes
+    the `ties` slice, each compared operand has a definition inside the loop."""
+    r = RuleResult("C08-TIESADJ", "tie-flag loops compare adjacent rows: both compared operands are redefined inside the loop", floor=1)
+    n = 0
+    for rec in facts.all_fns(["glaredb_core"], contains="arrays::sort::"):
+        if "arrays::sort::" not in rec["id"] or "::tests::" in rec["id"]:
+            continue
+        fn = Fn(rec)
+        vars_ = {v.get("name"): v for v in (rec.get("vars") or []) if isinstance(v, dict)}
+        if "ties" not in vars_ and "ties" not in str(rec.get("vars")):
+            continue
+
+        def in_loop(b):
+            return any(b in fn.reachable_from(s_) for s_ in fn.succ[b])
+
+        def variant(op, b, depth=0, seen=None):
+            """does the operand have a definition inside the loop containing block b?"""
+            seen = seen if seen is not None else set()
+            if op[0] not in ("c", "m") or depth > 6:
+                return False
+            L = op[1][0]
+            if L in seen:
+                return False
+            seen.add(L)
+            for d in fn.defs.get(L, []):
+                db = d[1]
+                loopdef = in_loop(db) and b in fn.reachable_from(db) and db in fn.reachable_from(b)
+                if d[0] in ("a", "pa") and d[3][0] in ("use", "cast") and len(fn.defs.get(L, [])) == 1:
+                    # a plain copy made in the loop: look through it
+                    src = d[3][1] if d[3][0] == "use" else d[3][2]
+                    if isinstance(src, list) and src and src[0] in ("c", "m"):
+                        if variant(src, b, depth + 1, seen):
+                            return True
+                        continue
+                if loopdef:
+                    return True
+            return False
+        for c in fn.calls():
+            last = c.name.rsplit("::", 1)[-1]
+            if not (last.startswith("compare") or last in ("cmp", "eq", "ne")) or not in_loop(c.bb) or len(c.args) < 2:
+                continue
+            if "compare_heap_values" not in c.name and "arrays::sort" not in c.name:
+                continue
+            n += 1
+            fixed = [i for i, a in enumerate(c.args[:2]) if not variant(a, c.bb)]
+            ok = not fixed
+            r.functions.add(fn.id)
+            r.call_sites += 1
+            r.inst({"fn": fn.id, "line": c.line, "callee": last, "loop_invariant_operands": fixed}, ok)
+            if not ok:
+                r.violate(fn.id, f"fixed-operand:{last}", f"the comparison at line {c.line} inside the tie-flag loop has an operand that is never redefined in the loop: every row is "
+                          "compared with the same row instead of its neighbour, equal neighbours lose their tie flag and later sort keys are not applied to them", rec["file"], c.line)
+    if n == 0:
+        r.missing_anchor("no comparison call inside a loop of a function that writes `ties` (arrays::sort)")
     return r
